@@ -805,6 +805,146 @@ def rule_tls(P, C):
     return r
 
 
+def rule_tls_loop(P, C):
+    """consider_reading (TLS): the application hears about data iff some read made progress; decrypted bytes pending inside the TLS library are read before the function returns
+    (nothing on the transport will announce them again); consider_writing keeps calling do_write while there is output and nothing blocks"""
+    r = Rule("C17-tls-loop", "K6", "TLS consider_reading reports progress once and drains what the TLS library holds decrypted; consider_writing goes on while output is left and nothing blocks", floor=25)
+    f = P.fn("consider_reading")
+    OPS = {}
+    for g in P.fns_in("bufferevent_ssl.c"):
+        for x in [el.e for el in g.elems()] + [b.term["cond"] for b in g.branch_blocks()]:
+            for q in walk(x):
+                if is_e(q, "int") and len(q) > 2 and isinstance(q[2], str) and q[2] in ("OP_MADE_PROGRESS", "OP_BLOCKED", "OP_ERR"):
+                    OPS[q[2]] = q[1]
+    if len(OPS) != 3:
+        r.brk("OP_* constants not found: %s" % sorted(OPS))
+        return r
+    PR, BL, ER = OPS["OP_MADE_PROGRESS"], OPS["OP_BLOCKED"], OPS["OP_ERR"]
+    bs = f.params[0][0]
+    bsv = ["var", bs, "param"]
+    K = lambda *fl: nkey(["fld", bsv, "bufferevent_ssl.%s" % fl[0], "->"])
+    susp_key = nkey(["fld", ["fld", bsv, "bufferevent_ssl.bev", "->"], "bufferevent_private.read_suspended", "."])
+    import itertools
+    scripts = [[(PR, 0)], [(PR | BL, 0)], [(BL, 0)], [(0, 0)], [(ER, 0)], [(PR, 7), (PR, 0)], [(PR, 7), (PR | BL, 0)], [(PR, 7), (BL, 0)], [(PR, 5), (PR, 3), (PR, 0)], [(0, 4), (PR, 0)], [(PR, 7), (ER, 0)]]
+    for script in scripts:
+        for und in (0, 9):
+            env = {"#typed": 1, "event_debug_logging_mask_": 0, bs: 7, K("write_blocked_on_read"): 0, K("underlying"): und, susp_key: 0, "#ops": (), "#k": 0, "#btr": 0,
+                   nkey(["fld", ["fld", ["fld", bsv, "bufferevent_ssl.bev", "->"], "bufferevent_private.bev", "."], "bufferevent.enabled", "."]): C["EV_READ"] | C["EV_WRITE"]}
+
+            def hook(el, e_):
+                n = callee_name(el.e) or slot_name(el.e)
+                a = el.e[2]
+                try:
+                    if n == "bytes_to_read":
+                        e_["#btr"] += 1
+                        return 100 if e_["#btr"] == 1 else 0        # after the first round the transport has nothing more
+                    if n == "do_read":
+                        k = e_["#k"]
+                        e_["#k"] = k + 1
+                        amount = evalx(normx(a[1]), e_, P)
+                        fl = script[k][0] if k < len(script) else BL
+                        e_["#ops"] = e_["#ops"] + (("read", amount, fl),)
+                        return fl
+                    if n == "pending":
+                        k = e_["#k"] - 1
+                        return script[k][1] if 0 <= k < len(script) else 0
+                    if n == "bufferevent_trigger_nolock_":
+                        e_["#ops"] = e_["#ops"] + (("readcb",),)
+                        return 0
+                    if n in ("event_del", "do_write"):
+                        return 0
+                except EvalError as ex:
+                    e_["#err"] = str(ex)
+                    return "impure"
+                return None
+            outs = [o for o in run_all(f, (f.entry, 0), env, lambda el: False, P, hook, max_steps=800) if not (o.kind == "exit" and o.why == "noreturn")]
+            for o in outs:
+                if o.kind == "unknown":
+                    r.brk("consider_reading: %s %s" % (o.why, o.env.get("#err", "")))
+                    return r
+                ops = list(o.env["#ops"])
+                reads = [x for x in ops if x[0] == "read"]
+                # reference: read; stop on blocked/error; otherwise go on with what the library holds decrypted
+                want_reads = []
+                for k, (fl, pend) in enumerate(script):
+                    want_reads.append(fl)
+                    if fl & (BL | ER) or not pend:
+                        break
+                progress = any(fl & PR for fl in want_reads)
+                r.inst(("reading", tuple(script), und), {"do_read_answers": [[hex(a_), b_] for a_, b_ in script], "filter_over_bufferevent": bool(und), "actions": [list(x) for x in ops]})
+                bad = []
+                if [x[2] for x in reads] != want_reads:
+                    bad.append("reads %s, expected %d read(s): the bytes the TLS library still holds decrypted are read before returning (the transport will not announce them again)" % ([(x[1], hex(x[2])) for x in reads], len(want_reads)))
+                else:
+                    for k in range(1, len(reads)):
+                        if reads[k][1] != script[k - 1][1]:
+                            bad.append("read %d asks for %d bytes, the TLS library holds %d" % (k + 1, reads[k][1], script[k - 1][1]))
+                if ops.count(("readcb",)) != (1 if progress else 0):
+                    bad.append("read callback triggered %d time(s) with%s progress" % (ops.count(("readcb",)), "" if progress else "out"))
+                elif progress and ops[-1] != ("readcb",) and ops.index(("readcb",)) < max(i for i, x in enumerate(ops) if x[0] == "read"):
+                    bad.append("the read callback is triggered before the last read")
+                if bad:
+                    r.bad("K6:consider_reading:loop", "%s:%d" % (f.file, f.line), f.name, "do_read answers %s: %s" % ([(hex(a_), b_) for a_, b_ in script], "; ".join(bad)))
+    # consider_writing
+    g = P.fn("consider_writing")
+    bs = g.params[0][0]
+    bsv = ["var", bs, "param"]
+    K = lambda fl: nkey(["fld", bsv, "bufferevent_ssl.%s" % fl, "->"])
+    wsusp_key = nkey(["fld", ["fld", bsv, "bufferevent_ssl.bev", "->"], "bufferevent_private.write_suspended", "."])
+    en_key = nkey(["fld", ["fld", ["fld", bsv, "bufferevent_ssl.bev", "->"], "bufferevent_private.bev", "."], "bufferevent.enabled", "."])
+    wscripts = [[(PR, 0)], [(PR, 5), (PR, 0)], [(PR, 5), (PR | BL, 2)], [(BL, 9)], [(ER, 9)], [(PR, 5), (PR, 3), (PR, 0)], [(0, 9), (PR, 0)]]
+    for script in wscripts:
+        env = {"#typed": 1, "event_debug_logging_mask_": 0, bs: 7, K("read_blocked_on_write"): 0, K("underlying"): 0, wsusp_key: 0, en_key: C["EV_READ"] | C["EV_WRITE"], "#ops": (), "#k": 0, "#out": 9}
+
+        def hookw(el, e_):
+            n = callee_name(el.e) or slot_name(el.e)
+            try:
+                if n == "do_write":
+                    k = e_["#k"]
+                    e_["#k"] = k + 1
+                    fl, left = script[k] if k < len(script) else (BL, e_["#out"])
+                    e_["#out"] = left
+                    e_["#ops"] = e_["#ops"] + (("write", fl),)
+                    return fl
+                if n == "evbuffer_get_length":
+                    return e_["#out"]
+                if n == "event_del":
+                    e_["#ops"] = e_["#ops"] + (("event_del", e_["#out"]),)
+                    return 0
+                if n in ("do_read", "bufferevent_trigger_nolock_"):
+                    return 0
+            except EvalError as ex:
+                e_["#err"] = str(ex)
+                return "impure"
+            return None
+        outs = [o for o in run_all(g, (g.entry, 0), env, lambda el: False, P, hookw, max_steps=800) if not (o.kind == "exit" and o.why == "noreturn")]
+        for o in outs:
+            if o.kind == "unknown":
+                r.brk("consider_writing: %s %s" % (o.why, o.env.get("#err", "")))
+                return r
+            ops = list(o.env["#ops"])
+            want = []
+            for fl, left in script:
+                want.append(fl)
+                if fl & (BL | ER) or not left:
+                    break
+            r.inst(("writing", tuple(script)), {"do_write_answers": [[hex(a_), b_] for a_, b_ in script], "actions": [list(x) for x in ops]})
+            bad = []
+            if [x[1] for x in ops if x[0] == "write"] != want:
+                bad.append("writes %s, expected %s: writing goes on while output is left and nothing blocks" % ([hex(x[1]) for x in ops if x[0] == "write"], [hex(x) for x in want]))
+            if any(x[0] == "event_del" and x[1] > 0 for x in ops):
+                bad.append("the write event is removed with %d byte(s) of output left (writing enabled, not suspended)" % [x[1] for x in ops if x[0] == "event_del"][0])
+            if bad:
+                r.bad("K6:consider_writing:loop", "%s:%d" % (g.file, g.line), g.name, "do_write answers %s: %s" % ([(hex(a_), b_) for a_, b_ in script], "; ".join(bad)))
+    seen, uniq = set(), []
+    for f_ in r.findings:
+        if f_.key not in seen:
+            seen.add(f_.key)
+            uniq.append(f_)
+    r.findings = uniq
+    return r
+
+
 def rule_movers(P):
     """who may put bytes into a bufferevent's input buffer / take bytes out of its output buffer inside the back ends"""
     r = Rule("C17-movers", "K2", "inside the socket and pair back ends only the transport writes bev->input and drains bev->output", floor=3)
@@ -849,7 +989,7 @@ def run(ctx, config):
         rr.brk("constants not found: %s" % [n for n in need if n not in C])
         return [rr]
     rules = []
-    for mk in (lambda: sock_rule(P, C, "bufferevent_readcb", "read"), lambda: sock_rule(P, C, "bufferevent_writecb", "write"), lambda: rule_pair(P, C), lambda: rule_pair_talk(P, C), lambda: rule_filter(P, C), lambda: rule_tls(P, C), lambda: rule_runners(P), lambda: rule_movers(P)):
+    for mk in (lambda: sock_rule(P, C, "bufferevent_readcb", "read"), lambda: sock_rule(P, C, "bufferevent_writecb", "write"), lambda: rule_pair(P, C), lambda: rule_pair_talk(P, C), lambda: rule_filter(P, C), lambda: rule_tls(P, C), lambda: rule_tls_loop(P, C), lambda: rule_runners(P), lambda: rule_movers(P)):
         try:
             rules.append(mk())
         except AnalysisBroken as ex:
